@@ -67,13 +67,21 @@ FIXED_TAGS = {
 }
 
 
+FIXED_NAMES = {
+    "streamname_fixed_a": ["a b", "ab c", "a"],
+    "streamname_fixed_b": ["abc", "a.b_c", "\u00e9a", " ab"],
+}
+
+
 def fixed_tag_replays(harness):
+    if harness in FIXED_NAMES:
+        return [["stream", n] for n in FIXED_NAMES[harness]]
     return [["lang", k, t, str(v)] for (k, t, v) in FIXED_TAGS.get(harness, [])]
 
 
 def decode(harness, vals):
-    if harness in FIXED_TAGS:
-        return {"fixed_inputs": FIXED_TAGS[harness], "replay_args_list": fixed_tag_replays(harness)}
+    if harness in FIXED_TAGS or harness in FIXED_NAMES:
+        return {"fixed_inputs": FIXED_TAGS.get(harness) or FIXED_NAMES.get(harness), "replay_args_list": fixed_tag_replays(harness)}
     f = globals().get(harness)
     if f is None:
         return {"raw_concrete_vals": vals}
